@@ -66,6 +66,16 @@ class Facts:
     def rets(self):
         return {x[1]: x[2] for x in self.obs if isinstance(x, list) and x[0] == 'ret'}
 
+    def delivered(self):
+        """messages handed to a consumer, in order: message callback entered, receive returned, login reply consumed"""
+        out = []
+        for o in self.obs:
+            if isinstance(o, list) and o[0] in ('msgEnter', 'loginReply'):
+                out.append(o[1])
+            elif isinstance(o, list) and o[0] == 'ret' and isinstance(o[2], list) and o[2][0] == 'msg':
+                out.append(o[2][1])
+        return out
+
     def triggers(self):
         """close triggers the script certainly contains"""
         t = []
@@ -167,12 +177,7 @@ def oracle_delivery(f, ctxv):
     cancellation while the session is open; in callback mode everything received is delivered while the session stays open."""
     res, cfg = f.res, f.cfg
     wire, stopped = f.wire_msgs()
-    delivered = []
-    for o in f.obs:
-        if isinstance(o, list) and o[0] == 'msgEnter':
-            delivered.append(o[1])
-        elif isinstance(o, list) and o[0] == 'ret' and isinstance(o[2], list) and o[2][0] == 'msg':
-            delivered.append(o[2][1])
+    delivered = f.delivered()
     if delivered != wire[:len(delivered)]:
         ctxv(f'consumer saw {delivered} but the peer sent {wire}: not a prefix (gap, duplicate, reordering or invention)')
         return
@@ -197,9 +202,30 @@ def oracle_hostile(f, ctxv):
         ctxv(f'exception reached the event loop: {res["loop_exceptions"][0]}')
     if res['task_exceptions']:
         ctxv(f'task died with {res["task_exceptions"][0]}')
+    # what reached the consumer: either the session stopped at the malformed frame, or it skipped it and went on
+    before, _ = f.wire_msgs()
+    full = []
+    for it in f.script:
+        if it[0] == 'data':
+            stop = False
+            for t in it[1]:
+                if t == 'logout':
+                    stop = True
+                    break
+                if t not in ('hb', 'bad'):
+                    full.append(int(t[1]))
+            if stop:
+                break
+    delivered = f.delivered()
+    if delivered != before[:len(delivered)] and delivered != full[:len(delivered)]:
+        ctxv(f'after a malformed frame the consumer saw {delivered}; the peer sent {full} (well-formed frames lost, invented or reordered)')
     if had_bad and not res['closed']:
-        wire, _ = f.wire_msgs()
-        ctxv('malformed frame received, session still reports open at the end and is deaf')
+        if f.cfg['mode'] == 'callback' and 'ok' in f.rets().values() and len(delivered) < len(full):
+            ctxv(f'malformed frame received; session still reports open but delivered only {len(delivered)} of the {len(full)} well-formed messages: deaf')
+        elif f.cfg['mode'] != 'callback' or 'ok' not in f.rets().values():
+            # nobody is consuming: an open session must at least still have a live reader
+            if 'R' not in res['alive']:
+                ctxv('malformed frame received, session reports open but its reader task is gone: deaf')
     last_close = [it for it in f.script if it[0] == 'close']
     if last_close and f.rets().get(last_close[-1][1]) != 'ok' and any(ev == ['close', last_close[-1][1]] for ev, _ in res['log']):
         ctxv(f'close() after hostile input ended with {f.rets().get(last_close[-1][1])!r}')
